@@ -5,7 +5,7 @@ chk("C03", "exploration",
     "DESIGN.md §3 C03")
 
 chk("C01", "exploration",
-    "Bounded-exhaustive enumeration of the declarative formula language: every propositional formula up to a connective-count bound on all truth assignments (one truth-table graph evaluation decides all 8, with non-target and doubly-typed decoy nodes), every quantifier (nested/atLeast/atMost) over every small inner formula in 10 connective contexts on every child multiset, quantifier chains to depth 2-3; each compared per node with a classical reference evaluator.",
+    "Bounded-exhaustive enumeration of the declarative formula language: every propositional formula up to a connective-count bound on all truth assignments (one truth-table graph evaluation decides all 8, with non-target and doubly-typed decoy nodes), every quantifier (nested/atLeast/atMost) over every inner formula with <=1 connective in 10 connective contexts and with 2 connectives bare, on every child multiset, quantifier chains to depth 2-3; each compared per node with a classical reference evaluator.",
     "Trusts the harness's own YAML rendering (parsed back by the implementation) and json-gold flattening of flat input; atoms other than minCount are covered only by the atom catalogue family.",
     "bounded exhaustive enumeration of formulas x truth assignments against a reference evaluator, on the real implementation",
     "DESIGN.md §3 C01")
@@ -17,12 +17,12 @@ chk("C02", "exploration",
     "DESIGN.md §3 C02")
 
 chk("C12", "exploration",
-    "Every report produced by the C01/C02/C14 enumerations plus families built for the id scheme (all three levels at once with >=11 results each, several traces per result, several sub-results per trace, nesting depth 3) is walked completely by a well-formedness oracle written from the statement.",
+    "Every report produced by the C01/C02/C14 enumerations plus families built for the id scheme (all three levels at once with >=11 results each, several traces per result, several sub-results per trace, nesting depth 3) and the files/stdout the built CLI leaves after every sequence of long/short/conforming reports into one output path, is walked completely by a well-formedness oracle written from the statement.",
     "The input's node table is taken from the abstract graph the document was rendered from.",
     "bounded exhaustive enumeration of reports (by enumerating profiles x graphs) checked by a structural oracle",
     "DESIGN.md §3 C12")
 chk("C14", "exploration",
-    "Exhaustive sweep, axis by axis, of lexical source maps on a fixed skeleton: all 4-tuples of line/column magnitudes, all node-to-file assignments, all subsets of nodes with node-level/property-level entries, with/without source information; every location in results, sub-results and traces is compared with the recorded numbers (as decimal strings) and file, and the rest of the report with the source-map-free report.",
+    "Exhaustive sweep, axis by axis, of lexical source maps on a fixed skeleton: all 4-tuples of line/column magnitudes, all node-to-file assignments, all subsets of nodes with node-level/property-level entries, with/without source information, and 37 constraint kinds producing the results and traces; every location in results, sub-results and traces is compared with the recorded numbers (as decimal strings) and file, and the rest of the report with the source-map-free report.",
     "Axes are swept one at a time around a default (no full cross product).",
     "bounded exhaustive enumeration of source-map assignments against the recorded values (differential with the map-free report)",
     "DESIGN.md §3 C14")
@@ -34,7 +34,7 @@ chk("C16", "exploration",
     "DESIGN.md §3 C16")
 
 chk("C17", "exploration",
-    "Deviation-bounded exhaustive enumeration: every single structured mutation of 6 seed profiles and 6 seed documents (every YAML/JSON tree position x a menu of wrong-kind values, key deletions/renames/duplications, JSON-LD keyword substitutions, whole-document specials), every raw string up to length 2/3 over the YAML and JSON structural alphabets, and (thorough) every pair of a profile and a data mutation, through all five entry points with and without an event channel; a recover() around each call observes panics, a watchdog observes blocking.",
+    "Deviation-bounded exhaustive enumeration: every single structured mutation of 6 seed profiles and 6 seed documents (every YAML/JSON tree position x a menu of wrong-kind values, key deletions/renames/duplications, JSON-LD keyword substitutions, whole-document specials), every raw string up to length 2/3 over the YAML and JSON structural alphabets, a call that does not return (watchdog + goroutine dump: parked > 1 min inside the repository, nothing running; re-run alone and with its shard prefix) is a violation; and (thorough) every pair of a profile and a data mutation, through all five entry points with and without an event channel; a recover() around each call observes panics, a watchdog observes blocking.",
     "'arbitrary byte strings' is bounded to k structured deviations from the seeds and raw strings of length <=3; no coverage-guided fuzzing (different family).",
     "deviation-bounded exhaustive enumeration of environment answers (the two input texts) on the real entry points",
     "DESIGN.md §3 C17")
@@ -46,7 +46,7 @@ chk("C04", "exploration",
     "DESIGN.md §3 C04")
 
 chk("C09", "model_checking",
-    "Explicit-state search over histories on the real compiled object: for 5 profiles, every sequence of documents of length <=3 (quick) / <=5 (thorough) over a 9-document alphabet (including failing calls and a large document) is executed on one freshly compiled query; every transition is compared byte-for-byte with an independent validation from the profile text and error-ness must agree.",
+    "Explicit-state search over histories on the real compiled object: for 5 profiles, every sequence of documents of length <=3 (quick) / <=4 (thorough) over a 9-document alphabet (including failing calls and a large document) is executed on one freshly compiled query; every transition is compared byte-for-byte with an independent validation from the profile text and error-ness must agree. Configuration histories: every sequence of 3 (document, clock/report-configuration) letters over 3 x 4, against the same call made in a fresh process. A call that never returns (goroutine parked > 1 min inside the repository, nothing running) is a violation.",
     "States are not merged (the compiled query exposes no inspectable state), so the search is a complete tree walk to the depth bound; every model transition is an implementation call.",
     "explicit-state exhaustive search over operation histories (depth-bounded) on the real object with a differential oracle",
     "DESIGN.md §3 C09")
@@ -58,13 +58,13 @@ chk("C18", "model_checking",
     "DESIGN.md §3 C18")
 
 chk("C05", "model_checking",
-    "Explicit-state search over JSON-LD surface rewrites: from the canonical serialisation of 4 base graphs, every sequence of <=2 (quick; <=3 thorough) rewrites drawn from 14 operators at every applicable position, deduplicated on the document text; each transition is validated to preserve the RDF dataset (json-gold N-Quads) and each state's verdict (conforms + result set with messages) under a 7-observer profile must equal the initial state's.",
+    "Explicit-state search over JSON-LD surface rewrites: from the canonical serialisation of 5 base graphs, every sequence of <=2 (quick; <=3 thorough; one level deeper for the small tree graph) rewrites drawn from 15 operators at every applicable position, deduplicated on the document text; each transition is validated to preserve the RDF dataset (json-gold N-Quads) and each state's verdict (conforms + result set with messages) under a 7-observer profile must equal the initial state's.",
     "Differential oracle (no hand-written expected values); typed literals, blank nodes and remote contexts are outside the alphabet; the RDF-equivalence check trusts json-gold's ToRDF.",
     "explicit-state depth-bounded search over rewrite sequences with text-level state deduplication and a differential oracle on the real implementation",
     "DESIGN.md §3 C05")
 
 chk("C15", "model_checking",
-    "Explicit-state search over meaning-preserving rewrites of the profile text: from 4 base profiles, every rewrite (quick: every single rewrite, and every pair for the sibling-quantifier profile; thorough: every pair everywhere) among key swaps, item swaps, prefix renaming/default-prefix substitution, quoting styles, flow/block style, comments, indentation, CRLF and trailing blanks; each successor is validated to denote the same abstract profile and its verdict on a data graph must equal the base spelling's.",
+    "Explicit-state search over meaning-preserving rewrites of the profile text: from 8 base profiles, every rewrite (quick: every single rewrite, and every pair for the sibling-quantifier and the shadowed-default-prefix profiles; thorough: every pair everywhere) among key swaps, item swaps, prefix renaming/default-prefix substitution, quoting styles, flow/block style, comments, indentation, CRLF and trailing blanks; each successor is validated to denote the same abstract profile and its verdict on a data graph must equal the base spelling's.",
     "Differential oracle; the equivalence check of successors uses yaml.v3 decoding plus IRI expansion with the declared and default prefixes.",
     "explicit-state depth-bounded search over rewrite sequences with text-level deduplication and a differential oracle on the real implementation",
     "DESIGN.md §3 C15")
@@ -76,7 +76,7 @@ chk("C10", "model_checking",
     "DESIGN.md §3 C10")
 
 chk("C06", "model_checking",
-    "The repository is rebuilt with every `range` over a map rewritten to iterate in an explorer-dictated order (type-aware instrumenter, site list in the evidence); for a family of profiles with sibling quantified constraints (the shape whose translation depends on key order), every order of every YAML key map is enumerated and every other map-iteration site is deviated one at a time (thorough: pairs); all executions must give one report byte string and one generated-code byte string. Goroutine interleaving is covered by C10 with the same equality oracle; an uninstrumented 30x repetition pass cross-checks that no map order escapes the seam.",
+    "The repository is rebuilt with every `range` over a map rewritten to iterate in an explorer-dictated order (type-aware instrumenter, site list in the evidence); for a family of profiles with sibling quantified constraints (the shape whose translation depends on key order), every order of every YAML key map is enumerated and every other map-iteration site is deviated one at a time (thorough: pairs); all executions must give one report byte string and one generated-code byte string. Goroutine interleaving is covered by C10 with the same equality oracle; an uninstrumented 30x repetition pass cross-checks that no map order escapes the seam. The wall clock is behind a second seam (the repository's time.Now() jumps an hour on every reading): 9 configured clock values x dateCreated on/off x 3 identical consecutive calls must agree. A history pass runs every ordered pair of 90 (profile, document) calls in one process against the result of the same call in a fresh process.",
     "Map iteration inside dependencies is not behind the seam (cross-checked by repetition only). Maps with more than 4 keys are permuted by rotations/reversals (2n orders), not n! orders.",
     "exhaustive enumeration of controlled nondeterminism (map iteration orders as choice points, deviation-bounded DFS) on the instrumented implementation",
     "DESIGN.md §3 C06")
@@ -88,19 +88,19 @@ chk("C11", "model_checking",
     "DESIGN.md §3 C11")
 
 chk("C08", "exploration",
-    "Exhaustive sweep of the linked engine's built-in table x 15 embedding positions x 10 call syntaxes: every combination for the five built-ins the property names must be rejected at compile time (by CompileProfile and by Validate) with the error naming the built-in as unsafe and with zero resolver/dial attempts on an instrumented resolver and loopback listener; all other built-ins serve as vacuity controls proving the templates are valid Rego (run is 'broken' below 90%).",
+    "Exhaustive sweep of the linked engine's built-in table x 15 embedding positions x 10 call syntaxes (+ 9 doubly-invalid forms in which the call sits next to a parse error, an unknown function, a type error, an unsafe variable or garbage): every combination for the five built-ins the property names must be rejected at compile time (by CompileProfile and by Validate) with the error naming the built-in as unsafe and with zero resolver/dial attempts on an instrumented resolver and loopback listener; all other built-ins serve as vacuity controls proving the templates are valid Rego (run is 'broken' below 90%).",
     "B is read from ast.Builtins of the OPA version /repo links (re-established on every dependency bump). Arguments are synthesised from declared types; quick runs controls in two positions each, thorough in all.",
     "exhaustive enumeration of (built-in x embedding position x call syntax) against the deny-list, with vacuity controls, on the real compile path",
     "DESIGN.md §3 C08")
 
 chk("C07", "exploration",
-    "The statement's own axes are each swept completely to 40 (or to the full product): every constraint kind x every small path shape, 1..40 quantified siblings, quantifier chains of depth 1..40 and every ordered quantifier tree with <=5/6 nodes, 1..40 validations over three level distributions, and connectives under 0/10/11/12/25/26/27 enclosing quantifiers; every profile must compile and survive a first evaluation.",
+    "The statement's own axes are each swept completely to 40 (or to the full product): every constraint kind x every small path shape, 1..40 quantified siblings, quantifier chains of depth 1..40 and every ordered quantifier tree with <=5/6 nodes, 1..40 validations over three level distributions, connectives under 0/10/11/12/25/26/27 enclosing quantifiers, and boundary values of every constraint argument (empty/one/duplicate/40-member lists of every scalar type, zero/negative/fractional/huge numbers, empty patterns); every profile must compile and survive a first evaluation.",
     "Axes are swept one at a time; sizes beyond 40 are not explored.",
     "bounded exhaustive enumeration of well-formed profiles along each size axis, on the real compile path",
     "DESIGN.md §3 C07")
 
 chk("C13", "exploration",
-    "Deviation-bounded exhaustive enumeration of special characters in profile text: every (slot, token, position) for 9 slots x 33 tokens x 3 positions (bound 1), and in thorough every ordered token pair within a slot and every pair across two slots (bound 2); each profile must compile, and the report must show the names verbatim, the message as the reference rendering defines it, and the same set of reported nodes as the plain text.",
+    "Deviation-bounded exhaustive enumeration of special characters in profile text: every (slot, token, position) for 12 slots x 48 tokens x 3 positions (bound 1; the tokens include one representative of every class of unusual code point up to U+10FFFF), and in thorough every ordered token pair within a slot and every pair across two slots (bound 2); each profile must compile, and the report must show the names verbatim, the message as the reference rendering defines it, and the same set of reported nodes as the plain text.",
     "YAML is emitted with double-quoted scalars and parsed back with yaml.v3 to confirm the intended string; placeholders refer to single-valued properties.",
     "deviation-bounded exhaustive enumeration of (slot x special token x position) against a reference rendering, on the real implementation",
     "DESIGN.md §3 C13")
